@@ -70,7 +70,7 @@ def run(tier, seed):
     ck.binary = vlib.build_harness()
     rr = vlib.run_harness(ck.binary, PROP, vec, seed=seed, tier=tier, shards=2)
     ck.absorb(rr)
-    ck.triage(rr.divs)
+    ck.triage(rr.divs, rerun=rr.again)
     # string tokens in depth: the literal units of spec/JsonString.tla with the meaning the definition gives
     lit = vlib.vecpath(PROP, "literals")
     with open(lit, "w") as sink:
@@ -83,7 +83,7 @@ def run(tier, seed):
     rr2 = vlib.run_harness(ck.binary, PROP, lit, seed=seed, tier=tier, shards=2, extra_args=["-noextra"])
     os.unlink(lit)
     ck.absorb(rr2)
-    ck.triage(rr2.divs)
+    ck.triage(rr2.divs, rerun=rr2.again)
     # code -> spec: recorded traces of the real Tokenizer validated by TLC
     for k in range(4 if thorough else 1):
         check_trace(ck, ck.binary, seed * 1000 + k, 3000 if thorough else 1500, vec)
